@@ -599,6 +599,38 @@ def code_identifier_derivation(res, prog):
         res.violation('C02.9', 'C02.9|elf-zero', f, f.line, 'Elf code id: not guarded by "not every byte of the whole build id is zero"')
 
 
+def elf_record(res, prog):
+    """C02.11: the ELF ('BpEL') CodeView record is its signature followed by the build id, and the build id is *the rest of
+    the record*, byte for byte (identifiers are derived from it, C02.8 / C02.9).  In CV_INFO_ELF's reader the build_id
+    field must be one read of `src.len() - offset` bytes at the offset the signature read left, copied as it is: no
+    slicing, trimming or filtering of the bytes in between."""
+    res.rule('C02.11', 0, floor=1, note='CV_INFO_ELF.build_id is the rest of the record, unmodified')
+    c = prog.crate('minidump_common')
+    fs = [f for f in c.fns if 'CV_INFO_ELF' in f.path and f.path.endswith('try_from_ctx') and f.kind in ('fn', 'method')]
+    if len(fs) != 1:
+        res.error('C02.11', 'the TryFromCtx reader of CV_INFO_ELF was not found')
+        return
+    f = fs[0]
+    seen = 0
+    for b in sorted(f.reach):
+        for s_ in f.blocks[b]['s']:
+            rv = s_['rv'] if s_['k'] == 'assign' else None
+            if not rv or rv['k'] != 'agg' or rv.get('ak') != 'adt' or not rv.get('adt', '').endswith('CV_INFO_ELF'):
+                continue
+            fields = rv.get('fields') or []
+            if 'build_id' not in fields:
+                continue
+            seen += 1
+            res.rule('C02.11', 1)
+            v = f.expand(f.operand_tree(rv['xs'][fields.index('build_id')]))
+            sv = show(v)
+            ok = bool(re.match(r'^\((std::slice::to_owned|<\[u8\] as std::borrow::ToOwned>::to_owned|std::slice::to_vec|<\[T\]>::to_vec|alloc::slice::to_vec|alloc::slice::to_owned) \(Continue\.0 \(trybranch \(<\[u8\] as scroll::Pread<Ctx, E>>::gread_with src (\S+) \(Sub \((core::slice::len|len) src\) \2\)\)\)\)\)$', sv))
+            if not ok:
+                res.violation('C02.11', 'C02.11|build-id', f, s_.get('line'), 'the build id of an ELF CodeView record is %s, not the unmodified rest of the record (`src.gread_with::<&[u8]>(offset, src.len() - *offset)?.to_owned()`)' % sv[:260])
+    if not seen:
+        res.error('C02.11', 'no CV_INFO_ELF { .. build_id .. } construction found in its reader')
+
+
 def architecture_tables(res, prog):
     """C02.10: every processor architecture the system-info reader knows as a CPU has a context layout in
     MinidumpContext::read - the two `match ProcessorArchitecture::from_u16(..)` tables list the same architectures.
@@ -646,6 +678,7 @@ def run(tier, t0):
     identifier_derivation(res, prog)
     code_identifier_derivation(res, prog)
     architecture_tables(res, prog)
+    elf_record(res, prog)
     res.assumptions += [
         'scroll reads a field with the endianness it is given and derive(Pread)/derive(SizeWith) walk the same field list (trusted crate)',
         'field offsets and padding against the serializer, identifier derivation and memory contents are NOT decided (they relate values to values)',
